@@ -25,7 +25,7 @@ pub const RULE_B: &str = "rANS/FSE/LZ half: corpus b_*.json; every string of len
 // ---------------------------------------------------------------------------------------------
 // small helpers
 // ---------------------------------------------------------------------------------------------
-fn silence_stdout() {
+pub fn silence_stdout() {
     // zipora prints "FSE ..." / "Adaptive encoding ..." lines; nothing of ours goes to stdout
     use std::sync::Once;
     static ONCE: Once = Once::new();
@@ -38,7 +38,7 @@ fn silence_stdout() {
     });
 }
 
-fn counts(d: &[u8]) -> [u32; 256] {
+pub fn counts(d: &[u8]) -> [u32; 256] {
     let mut f = [0u32; 256];
     for &b in d {
         f[b as usize] = f[b as usize].saturating_add(1);
@@ -58,7 +58,7 @@ fn short(d: &[u8]) -> String {
         format!("{:?}..(len {})", &d[..24], d.len())
     }
 }
-fn diff_at(a: &[u8], b: &[u8]) -> String {
+pub fn diff_at(a: &[u8], b: &[u8]) -> String {
     if a.len() != b.len() {
         return format!("length {} instead of {}", b.len(), a.len());
     }
@@ -92,13 +92,13 @@ pub struct Cx<'a> {
 // ---------------------------------------------------------------------------------------------
 // payload generators
 // ---------------------------------------------------------------------------------------------
-const KINDS: usize = 14;
-fn kind_name(k: usize) -> &'static str {
+pub const KINDS: usize = 14;
+pub fn kind_name(k: usize) -> &'static str {
     ["alpha1", "alpha2", "alpha3", "alpha16", "alpha255", "alpha256", "geometric", "dominant", "dominant_all",
      "zeros", "single", "text", "runs", "period"][k % KINDS]
 }
 /// a payload of exactly `len` bytes of the given family
-fn payload(r: &mut Rng, len: usize, kind: usize) -> Vec<u8> {
+pub fn payload(r: &mut Rng, len: usize, kind: usize) -> Vec<u8> {
     let alpha = |r: &mut Rng, k: usize, len: usize| -> Vec<u8> {
         // k symbols spread over the byte range, including 0 and 255 when k >= 2
         let syms: Vec<u8> = if k >= 256 { (0..=255u8).collect() } else if k == 255 { (1..=255u8).collect() } else if k == 1 { vec![*r.pick(&[b'a', 1u8, 255u8, 128u8])] } else {
@@ -169,9 +169,9 @@ fn payload(r: &mut Rng, len: usize, kind: usize) -> Vec<u8> {
 }
 
 /// training data in a given relation to the payload
-const RELS: usize = 8;
-fn rel_name(k: usize) -> &'static str { ["same", "unrelated", "superset", "prefix", "empty", "disjoint", "suffix", "embedded"][k % RELS] }
-fn training(r: &mut Rng, data: &[u8], rel: usize) -> Vec<u8> {
+pub const RELS: usize = 8;
+pub fn rel_name(k: usize) -> &'static str { ["same", "unrelated", "superset", "prefix", "empty", "disjoint", "suffix", "embedded"][k % RELS] }
+pub fn training(r: &mut Rng, data: &[u8], rel: usize) -> Vec<u8> {
     match rel % RELS {
         0 => data.to_vec(),
         1 => { let n = *r.pick(&[1usize, 50, 300, 2000]); let k = r.below(KINDS as u64) as usize; payload(r, n, k) }
@@ -309,8 +309,8 @@ fn adaptive_rans_case(cx: &mut Cx, data: &[u8], tag: &str) {
 // ---------------------------------------------------------------------------------------------
 // FSE
 // ---------------------------------------------------------------------------------------------
-const PRESETS: [&str; 9] = ["default", "fast", "high", "realtime", "balanced", "par2_bs64", "par4_bs100", "par3_bs1000", "par2_bs4096_simple"];
-fn fse_config(name: &str) -> FseConfig {
+pub const PRESETS: [&str; 9] = ["default", "fast", "high", "realtime", "balanced", "par2_bs64", "par4_bs100", "par3_bs1000", "par2_bs4096_simple"];
+pub fn fse_config(name: &str) -> FseConfig {
     match name {
         "default" => FseConfig::default(),
         "fast" => FseConfig::fast_compression(),
